@@ -626,6 +626,8 @@ class BusAuthenticator :
             self.state = 'WaitingForBegin'
 
         elif status == 'CONTINUE':
+            if isinstance(challenge, str):
+                challenge = challenge.encode('ascii')
             self.sendAuthMessage(b'DATA ' + binascii.hexlify(challenge))
             self.state = 'WaitingForData'
 
